@@ -997,6 +997,9 @@ func c20BondEpisode(r *Rec, n int) {
 func c20LpEpisode(r *Rec, n int) {
 	names := []string{"alpha", "beta"}
 	denoms := []string{"alp", "bet"}
+	if (n/3)%2 == 1 {
+		denoms = []string{"alp", "Alp"} // two dApps whose token denominations differ in letter case only: two LP tokens
+	}
 	ep := newL2Ep(r, 4, names, denoms, 1, 5, 100, -1)
 	r.Mark(fmt.Sprintf("lp episode %d", n))
 	fees := []string{c20Fees[r.Rng.Intn(len(c20Fees))], c20Fees[r.Rng.Intn(len(c20Fees))]}
@@ -1018,7 +1021,7 @@ func c20LpEpisode(r *Rec, n int) {
 	}
 	start := make([][]sdkmath.Int, ep.nu)
 	snap := func(u int) []sdkmath.Int {
-		return []sdkmath.Int{ep.ukex(u), ep.lpBal(u, "lp/alp"), ep.lpBal(u, "lp/bet")}
+		return []sdkmath.Int{ep.ukex(u), ep.lpBal(u, "lp/"+denoms[0]), ep.lpBal(u, "lp/"+denoms[1])}
 	}
 	for u := 0; u < ep.nu; u++ {
 		start[u] = snap(u)
